@@ -292,3 +292,25 @@ def run(ctx):
                     st.oracle_fail(label, req, "filter:entry-differs-from-full-report", e["name"])
         for clause, detail in oracle_c17(m, entries, fm, flt is not None):
             st.oracle_fail(label, req, clause, detail)
+        # history: the same model OBJECT edited in place through public attributes and setters (cardinalities, abstract
+        # flags, constraint formulas moved between the simple / pseudo-complex / strict-complex classes) and analysed again
+        # by the same operation object: the report is the edited model's
+        if flt is None and (label in ("nest-ctc", "case-twins") or (label == "random" and g.rng.random() < 0.3)):
+            b = spec.same_shape_variant(m, g.rng)
+            spec.retarget(fm, b)
+            req2 = sx.dumps(tag("metrics", Sym("none"), spec.fm_sx(b)))
+            mrep2 = canon_model(sx.loads(ctx.model.call_raw(req2)))
+            try:
+                entries2 = shared.execute(fm).get_result()
+                irep2 = ("ok", canon_impl(entries2))
+            except RecursionError:
+                raise
+            except Exception as e:  # noqa: BLE001
+                entries2, irep2 = None, ("err", spec.exn_name(e))
+            st.record("edited-in-place", req2, repr(irep2), repr(mrep2), nontrivial=spec.spec_size(b["root"]) >= 2)
+            if entries2 is None:
+                st.oracle_fail("edited-in-place", req2, "raises", irep2[1])
+            else:
+                for clause, detail in oracle_c17(b, entries2, fm, False):
+                    st.oracle_fail("edited-in-place", req2, clause, detail)
+            held = None      # the report handed out before belongs to the model before the edit
